@@ -151,7 +151,10 @@ def columns_keyed(spec):
         ks = [spec["v"]] if spec["form"] == "str" else spec["v"]
     elif spec["form"] == "dict":
         ks = []
-        for e in spec["v"].values():
+        entries = list(spec["v"].values()) + list((spec.get("missing") or {}).values())
+        if spec.get("default") is not None:
+            entries.append(spec["default"])
+        for e in entries:
             ks += [e] if isinstance(e, str) else list(e)
     elif spec["form"] == "callable" and spec["v"] in ("autoincrement_seqid", "autoincrement_seqid_strand"):
         return out
@@ -363,3 +366,229 @@ def gen_stale_case(rng):
     foreign = {"perm": perm, "extra": records(rng, fmt, rng.randrange(0, 3), 0.0, offset=500), "extra_first": rng.random() < 0.5}
     return {"kind": "stale", "fmt": fmt, "spec": spec, "base": base, "ops": ops, "via": via,
             "db": "file" if via == "other" or rng.random() < 0.3 else "memory", "foreign": foreign}
+
+
+# ---------------------------------------------------------------------------------------------------------------
+# dict id_spec objects that are dict SUBCLASSES: the per-featuretype entry is whatever the dict gives for that featuretype
+DICT_CLASSES = ["defaultdict", "missing", "ordered", "subclass", "getitem"]
+
+
+def any_entry(rng, n):
+    r = rng.random()
+    if r < 0.5:
+        return attr_name(rng)
+    if r < 0.6:
+        return column_spec(rng, n)
+    return attr_list(rng)
+
+
+def subclass_spec(rng, recs, fmt, cls=None):
+    """A dict id_spec description with "cls" (see gvmon/models/C04.py): some featuretypes of the file are explicit items,
+    others get their entry from default_factory / __missing__ / an aliasing __getitem__ (or none at all)."""
+    n = len(recs)
+    cls = cls or rng.choice(DICT_CLASSES)
+    spec = spec_of(rng, rng.choice(["dict-str", "dict-list"]), recs, fmt)
+    v = spec["v"]
+    types = sorted(set(r["featuretype"] for r in recs))
+    if cls in ("defaultdict", "missing", "getitem") and all(t in v for t in types):
+        del v[rng.choice(types)]            # at least one featuretype of the file is not an explicit item
+    if not v:
+        v["absent_type"] = any_entry(rng, n)
+    spec["cls"] = cls
+    if cls == "defaultdict":
+        spec["default"] = any_entry(rng, n) if rng.random() < 0.5 else rng.choice(["ID", "ID", "Name"])
+    elif cls == "missing":
+        spec["missing"] = dict((t, any_entry(rng, n)) for t in types + ["other_type"] if t not in v and rng.random() < 0.65)
+    elif cls == "getitem":
+        alias = {}
+        for t in types:
+            if t not in v and rng.random() < 0.7:
+                alias[t] = rng.choice(sorted(v))          # a featuretype without item is given another item's entry
+            elif t in v and rng.random() < 0.2:
+                alias[t] = "nothing_here"                 # an explicit item the dict does not give out
+        spec["alias"] = alias
+    return spec
+
+
+def plain_of(spec):
+    """The same items as a plain dict."""
+    return {"form": "dict", "v": copy.deepcopy(spec["v"])}
+
+
+def finish_import(rng, fmt, form, spec, recs, **more):
+    cols = columns_keyed(spec)
+    for s2 in (more.get("spec2"),):
+        if s2:
+            cols |= columns_keyed(s2)
+    if "featuretype" in cols and spec["form"] == "dict":
+        cols.discard("featuretype")
+    make_unique(recs, cols)
+    n = len(recs)
+    path = "create+update" if (more.get("spec2") or (n >= 2 and rng.random() < 0.35)) and n >= 2 else "create"
+    if path == "create":
+        batches = [recs]
+        more.pop("spec2", None)
+    else:
+        cut = rng.randrange(1, n)
+        batches = [recs[:cut], recs[cut:]]
+    case = {"kind": "import", "fmt": fmt, "form": form, "spec": spec, "batches": batches, "infer": False,
+            "db": "file" if (path != "create" or rng.random() < 0.3) else "memory",
+            "input": rng.choice(["string", "path"]), "reopen": rng.random() < 0.5}
+    case.update((k, v) for k, v in more.items() if v is not None)
+    return case
+
+
+def gen_dictsub_case(rng, cls=None):
+    fmt = rng.choice(["gff3", "gff3", "gtf"])
+    n = rng.choice([2, 3, 4, 5, 6, 8, 12])
+    recs = records(rng, fmt, n, rng.choice([0.0, 0.0, 0.05]))
+    spec = subclass_spec(rng, recs, fmt, cls)
+    spec2 = None
+    r = rng.random()
+    if r < 0.2:
+        # create_db under a plain dict (or the default), the subclass only through FeatureDB.update(id_spec=...)
+        spec, spec2 = (plain_of(spec) if rng.random() < 0.7 else {"form": "none"}), spec
+    elif r < 0.3:
+        spec2 = subclass_spec(rng, recs, fmt)
+    return finish_import(rng, fmt, "dict-subclass:" + (spec2 or spec)["cls"], spec, recs, spec2=spec2)
+
+
+# ---------------------------------------------------------------------------------------------------------------
+# attribute VALUES that look like the special return values of a callable id_spec / like ':column:' entries: they are
+# just text, and the key itself.
+SPECIALS = ["autoincrement:tx", "autoincrement:", "autoincrement:exon", "autoincrement:gene", "autoincrement:chr1",
+            "autoincrement:mRNA", ":seqid:", ":source:", ":featuretype:", ":start:", ":strand:", "autoincrement:autoincrement:x",
+            "autoincrement:tx_1", "Autoincrement:tx", "autoincrement", ":id:", "autoincrement::seqid:", "autoincrement:é"]
+SPECIAL_FORMS = ["none", "str", "list", "dict-str", "dict-list", "dict-subclass", "callable:name_attr", "callable:mixed"]
+
+
+def set_attr(rec, key, vals):
+    for a in rec["attrs"]:
+        if a[0] == key:
+            a[1] = list(vals)
+            return
+    rec["attrs"].append([key, list(vals)])
+
+
+def special_spec(rng, form, recs, fmt):
+    types = sorted(set(r["featuretype"] for r in recs))
+    if form in ("none", "callable:name_attr", "callable:mixed"):
+        return spec_of(rng, form, recs, fmt)
+    if form == "str":
+        return {"form": "str", "v": rng.choice(["ID", "ID", "Name"])}
+    if form == "list":
+        return {"form": "list", "v": rng.choice([["ID", "Name"], ["nokey", "ID"], ["Name", "ID"], ["Alias", "ID", "Name"], ["ID", ":seqid:"]])}
+    ent = (lambda: rng.choice(["ID", "ID", "Name"])) if form == "dict-str" else (
+        lambda: rng.choice([["ID"], ["nokey", "ID"], ["Name", "ID"], ["ID", "Name"]]))
+    if form in ("dict-str", "dict-list"):
+        d = dict((t, ent()) for t in types if rng.random() < 0.8)
+        if not d:
+            d[types[0]] = ent()
+        if fmt == "gtf":
+            for t, k in (("gene", "gene_id"), ("transcript", "transcript_id")):
+                if t in d and rng.random() < 0.7:
+                    d[t] = k if form == "dict-str" else [k]
+        return {"form": "dict", "v": d}
+    cls = rng.choice(["defaultdict", "defaultdict", "missing", "ordered", "getitem"])
+    d = dict((t, rng.choice(["ID", "Name", ["Name", "ID"]])) for t in types if rng.random() < 0.4)
+    d.setdefault("absent_type", "Name")
+    spec = {"form": "dict", "v": d, "cls": cls}
+    if cls == "defaultdict":
+        spec["default"] = rng.choice(["ID", "ID", ["Alias", "ID"]])
+    elif cls == "missing":
+        spec["missing"] = dict((t, rng.choice(["ID", ["nokey", "ID"]])) for t in types if t not in d and rng.random() < 0.8)
+    elif cls == "getitem":
+        spec["alias"] = dict((t, "absent_type") for t in types if t not in d and rng.random() < 0.8)
+    return spec
+
+
+def special_records(rng, fmt, n):
+    """-> (recs, placed specials): lines whose id-supplying attributes carry SPECIALS (each at most once), gff3: with
+    children naming them as Parent."""
+    recs = records(rng, fmt, n, 0.0)
+    k = rng.randrange(1, min(n, 4) + 1)
+    placed = []
+    for rec, sp in zip(rng.sample(recs, k), rng.sample(SPECIALS, k)):
+        ft = rec["featuretype"]
+        if fmt == "gtf" and ft in ("gene", "transcript") and rng.random() < 0.7:
+            key = "gene_id" if ft == "gene" else "transcript_id"
+        else:
+            key = rng.choice(["ID", "ID", "ID", "Name", "Alias"])
+        set_attr(rec, key, [sp])
+        placed.append((sp, key))
+    if fmt == "gff3":
+        off = 60
+        for sp, key in list(placed):
+            if key == "ID" and rng.random() < 0.7:
+                for kid in records(rng, fmt, rng.choice([1, 1, 2]), 0.0, offset=off):
+                    off += 2
+                    kid["featuretype"] = rng.choice(["exon", "CDS"])
+                    others = [p for p, kk in placed if kk == "ID" and p != sp]
+                    set_attr(kid, "Parent", [sp] + ([rng.choice(others)] if others and rng.random() < 0.2 else []))
+                    if rng.random() < 0.5:
+                        kid["attrs"] = [a for a in kid["attrs"] if a[0] != "ID"] or [["Note", ["kid"]]]
+                    recs.insert(rng.randrange(0, len(recs) + 1), kid)
+    return recs, placed
+
+
+def absent_for(placed, recs):
+    out = []
+    for sp, _ in placed:
+        if sp.startswith(MC.AUTO):
+            x = sp[len(MC.AUTO):]
+            out += [x + "_1", x + "_2", x, "_1", sp + "_1", sp.split(":")[0]]
+        else:
+            out += [sp.strip(":"), sp[1:], sp[:-1]] + [r[sp.strip(":")] for r in recs[:3] if sp.strip(":") in r]
+    return [k for k in dict.fromkeys(out) if k]
+
+
+def gen_special_case(rng):
+    fmt = rng.choice(["gff3", "gff3", "gff3", "gtf"])
+    n = rng.choice([2, 3, 4, 5, 6, 8])
+    recs, placed = special_records(rng, fmt, n)
+    form = rng.choice(SPECIAL_FORMS)
+    spec = special_spec(rng, form, recs, fmt)
+    return finish_import(rng, fmt, "special:" + form, spec, recs, special=True, absent=absent_for(placed, recs))
+
+
+def gen_collide_case(rng):
+    """Two or three features carrying the same (special-looking, sometimes plain) id value, imported under 'error' /
+    'create_unique': they collide like any duplicates."""
+    fmt = rng.choice(["gff3", "gff3", "gtf"])
+    n = rng.choice([2, 3, 4, 5, 6])
+    recs, placed = special_records(rng, fmt, n)
+    form = rng.choice(["none", "none", "str", "list", "dict-str", "dict-list", "dict-subclass", "callable:name_attr"])
+    if fmt == "gtf":
+        # the value sits where the default spec of the format looks
+        placed = []
+        for rec in rng.sample(recs, min(2, n)):
+            rec["featuretype"] = "gene"
+            rec["attrs"] = [["gene_id", ["G1"]]] + [a for a in rec["attrs"] if a[0] not in ("gene_id", "transcript_id")]
+        form = rng.choice(["none", "dict-str"])
+    dup = rng.choice(SPECIALS) if rng.random() < 0.8 else "plain.7"
+    key = "ID"
+    if form == "callable:name_attr":
+        key = "Name"
+    donors = [r for r in recs if not any(a[0] == "Parent" for a in r["attrs"])] or recs
+    chosen = rng.sample(donors, min(len(donors), rng.choice([2, 2, 3])))
+    if len(chosen) < 2:
+        extra = records(rng, fmt, 1, 0.0, offset=80)[0]
+        recs.append(extra)
+        chosen.append(extra)
+    for rec in chosen:
+        if fmt == "gtf":
+            rec["featuretype"] = "gene"
+            rec["attrs"] = [["gene_id", [dup]]] + [a for a in rec["attrs"] if a[0] not in ("gene_id", "transcript_id")]
+        else:
+            set_attr(rec, key, [dup])
+    if fmt == "gtf":
+        spec = {"form": "none"} if form == "none" else {"form": "dict", "v": {"gene": "gene_id", "exon": "ID"}}
+    elif form == "str":
+        spec = {"form": "str", "v": "ID"}
+    elif form == "list":
+        spec = {"form": "list", "v": rng.choice([["ID", "Name"], ["nokey", "ID"]])}
+    else:
+        spec = special_spec(rng, form, recs, fmt)
+    case = finish_import(rng, fmt, "collide:" + form, spec, recs, special=True, absent=absent_for(placed + [(dup, key)], recs))
+    case.update(kind="collide", strategy=rng.choice(["error", "create_unique", "create_unique"]), dup=dup)
+    return case
